@@ -8,6 +8,9 @@ import (
 
 const (
 	scratchByteArrayLen = 32
+
+	// How often ReadByte asks a reader that keeps returning (0, nil) before giving up.
+	maxConsecutiveEmptyReads = 100
 )
 
 var (
@@ -278,14 +281,23 @@ func (z *readerToScanner) Read(p []byte) (n int, err error) {
 }
 
 func (z *readerToScanner) ReadByte() (c byte, err error) {
-	n, err := z.Read(z.b[:])
-	if n == 1 {
-		c = z.b[0]
-		if err == io.EOF {
-			err = nil // read was successful, so postpone EOF (till next time)
+	// An io.Reader may legally return (0, nil); that is "no progress", not a byte.
+	// Ask again, but (like bufio) not forever.
+	for i := 0; i < maxConsecutiveEmptyReads; i++ {
+		var n int
+		n, err = z.Read(z.b[:])
+		if n == 1 {
+			c = z.b[0]
+			if err == io.EOF {
+				err = nil // read was successful, so postpone EOF (till next time)
+			}
+			return
+		}
+		if err != nil {
+			return
 		}
 	}
-	return
+	return 0, io.ErrNoProgress
 }
 
 func (z *readerToScanner) UnreadByte() (err error) {
